@@ -330,8 +330,15 @@ def classify(h, parsed, rc, timed_out):
     return "pass", [], ""
 
 
+def effective_spec(spec, h):
+    """A harness may be built from its own overlay set (`build`: overlays / redirects / coll_cap), e.g. a
+    pool-level harness of a property whose other harnesses need the slot-state overlay only."""
+    return dict(spec, **h["build"]) if h.get("build") else spec
+
+
 def run_harness(spec, h, tier, keep_logs):
     """Runs one harness under Kani; on failure re-runs with concrete playback."""
+    spec = effective_spec(spec, h)
     misses = []
     res = {"name": h["name"], "role": h["role"], "kind": h["kind"]}
     timeout = h["timeout"][tier] if isinstance(h["timeout"], dict) else h["timeout"]
@@ -535,7 +542,7 @@ def check_property(prop, tier, only, jobs, seed):
         pbs = [p for p in r.get("playbacks", []) if p["desc"] in unknown] + [p for p in r.get("playbacks", []) if p["desc"] not in unknown]
         for pb in pbs[:8]:
             path = write_replay_file(prop, h, pb, spec)
-            rep, msg = native_replay(spec, h["name"], h["path"], path)
+            rep, msg = native_replay(effective_spec(spec, h), h["name"], h["path"], path)
             r["replay_outcomes"].append({"file": path, "failed_check": pb["desc"], "reproduced": rep, "native_message": msg})
             log(f"[{prop}] replay {r['name']} [{pb['desc']}] -> reproduced={rep} {msg}")
             if rep:
@@ -561,6 +568,9 @@ def do_replay(path):
     meta = read_replay_file(path)
     prop, name, mod = meta["property"], meta["harness"], meta["module"]
     spec = load_spec(prop)
+    for h in spec["harnesses"]:
+        if h["name"] == name:
+            spec = effective_spec(spec, h)
     rep, msg = native_replay(spec, name, mod, path, release=bool(os.environ.get("VERIF_REPLAY_RELEASE")))
     print(f"replay {path}: reproduced={rep} ({msg})")
     if rep:
